@@ -91,6 +91,23 @@ NEEDS = {
     'S7-C15': "solveMatrixPDE with an exactly all-zero float RHS: the returned variable's storage is the caller's RHS buffer",
     'S7-C16': "whole-attribute assignment fv.zvalue = arr on a SphericalGrid3D face variable (foreign label accepted by the setter only)",
     'S7-C17': "SphericalGrid3D from face arrays with theta_min > 0, upwind term, positive theta velocity on the theta_min boundary faces",
+    'S8-C01': "a cylindrical / polar grid built from an integer-dtype face array: the cell centres are written into np.empty_like(faces) and truncated, the operators divide by them while cellvolume uses the exact faces",
+    'S8-C02': "a boundary datum whose magnitude is <= 1e-8 (or a relative update < 1e-5): the setters skip assignments that np.allclose calls unchanged",
+    'S8-C03': "same kind of slip as S8-C02 (np.allclose guard in the BoundaryFace setters), seen through the boundary-value property",
+    'S8-C04': "every entry of the assembled right-hand side <= 1e-8 in magnitude and not all zero: solvePDE takes a `np.allclose(RHS, 0.0)` shortcut and never calls the solver",
+    'S8-C05': "Grid1D with exactly one cell and positive velocity on the left boundary face (repeated fancy index in the diagonal correction)",
+    'S8-C06': "SphericalGrid3D with a one-cell axis, upwind / TVD term, positive velocity on the lower face of that axis (repeated fancy index)",
+    'S8-C07': "as S8-C06 (one-cell axis of SphericalGrid3D, positive velocity on its lower boundary face), seen through the maximum principle",
+    'S8-C08': "Grid3D with exactly one cell along z and a back / front condition that is neither no-flux nor periodic: the z part of the diffusion matrix is skipped for Nz == 1",
+    'S8-C09': "a second copy() of the same variable in one process after a boundary-condition edit (mutable default argument used as deepcopy memo)",
+    'S8-C10': "a 1-D grid class built from exactly equispaced face positions whose first face is not 0 (the constructor delegates to the (N, L) form and drops the origin)",
+    'S8-C11': "a non-uniform grid whose cell widths are all within 1e-8 (absolute) of the first one: cell_size_array treats the axis as uniform",
+    'S8-C12': "alpha non-zero with |alpha| <= 1e-8 in every cell: transientTerm returns empty terms behind np.allclose(a.value, 0.0)",
+    'S8-C13': "the CHARM limiter called with an integer-typed gradient-ratio array (np.piecewise allocates its output with the argument's dtype)",
+    'S8-C14': "0 + CellVariable (the start value of sum()), then an in-place edit of the result or the operand",
+    'S8-C15': "solvePDE with an all-zero boundary right-hand side and at least two RHS contributions: the first RHS term of the caller becomes the accumulator",
+    'S8-C16': "a flat python list of numbers (or another array-like non-array) passed as an equation term: np.ndim classifies it by nesting depth instead of refusing it",
+    'S8-C17': "TVD term with some |dphi/dx| in [1e-16, 1e-8] (np.isclose default atol in a rewritten _fsign)",
     'S2-C16': "assigning FaceVariable.yvalue on CylindricalGrid2D / PolarGrid2D / 3-D curvilinear grids (subclasses of Grid2D/Grid3D) where the label is not documented",
 }
 
@@ -134,6 +151,15 @@ BEFORE = {
     'S7-C05': "no check reported it: C05.E5 (unit limiter: upwind - TVD == central) was evaluated at the generic cell only; it is now also evaluated per axis in the first / last rows along the other axes",
     'S7-C12': "C04.S2 misfired and C15 was silent: python list semantics were not modelled (`lst += [..]` rebinding instead of extending, no growth during iteration); modelled, and C04.S1 / C15.Z2 require the caller's term list to be unchanged",
     'S7-C15': "exit 2 (np.any over symbolic data); quantified predicates fork the job: effect / alias rules stay definite on the outcome that pins the data, value rules are undetermined there",
+    'S8-C01': "C01 silent (reported by C10.G1 only): C01 had no integer-dtype pass; added",
+    'S8-C04': "exit 2 everywhere (IndexError in the checker: no solver call was recorded on the path np.allclose(RHS, 0.0) is true); a missing solver call is reported (C04.S3, C09.P4)",
+    'S8-C07': "C07 silent (reported by C05.E3, C06.U3): C07 used concrete one-cell grids in the thorough tier only; quick tier covers them for the 2-D / 3-D classes",
+    'S8-C08': "C08 silent, C05 / C06 exit 2 (csr_array(shape) unmodelled): the empty-matrix form is modelled, C08.A1 also runs on concrete grids with equally many (one, two) cells along every axis",
+    'S8-C09': "C09 silent (reported by nothing: default arguments were re-evaluated on every call and deepcopy ignored a caller's memo); default arguments are evaluated once, C14.O6 second-copy scenario, ALGEBRA lemma group in C09",
+    'S8-C10': "exit 2 (np.all over symbolic data, then undetermined on the pinned path); np.all / np.any are decided over index classes when constant, C10.G1 also constructs every class from equispaced faces with a free origin",
+    'S8-C12': "exit 2 (np.isinf unmodelled); modelled (symbolic data are finite), the np.allclose branch forks",
+    'S8-C13': "reported at once - np.piecewise is outside the modelled subset of limiter formulas, which C13.F3 reports as a non-elementwise construct",
+    'S8-C16': "C16 silent (L7 probed None / str / dict / objects / tuples only); np.ndim modelled, L7 probes python numbers, flat and nested lists, CellVariable objects, numpy scalars, 0-d and 3-d arrays",
     'S-C04': "C04 silent in round 1 (caught by C09 only); C04.S8 added",
     'S-C15': "C05 exit 2 in round 1 (case-split budget); recursive case split",
 }
@@ -155,7 +181,7 @@ def main():
         meta = {
             'id': d,
             'breaks_property': prop,
-            'origin': 'independent sub-agent given only the property text and a scratch worktree' + (' (second round)' if d.startswith('S2') else ' (third round)' if d.startswith('S3') else ' (fourth round)' if d.startswith('S4') else ' (fifth round)' if d.startswith('S5') else ' (sixth round)' if d.startswith('S6') else ' (seventh round, with a focus area per property)' if d.startswith('S7') else ''),
+            'origin': 'independent sub-agent given only the property text and a scratch worktree' + (' (second round)' if d.startswith('S2') else ' (third round)' if d.startswith('S3') else ' (fourth round)' if d.startswith('S4') else ' (fifth round)' if d.startswith('S5') else ' (sixth round)' if d.startswith('S6') else ' (seventh round, with a focus area per property)' if d.startswith('S7') else ' (eighth round: triggers that are special values, sizes or types)' if d.startswith('S8') else ''),
             'files_changed': files,
             'needs_to_manifest': NEEDS.get(d) or old.get('needs_to_manifest', ''),
             'confirmed_by_me': {
@@ -165,7 +191,7 @@ def main():
                 'demo_exit_without_change': ver.get('demo_without_change_exit'),
                 'confirmed': ver.get('confirmed'),
             },
-            'checks_run': ('tools/try_patch.py: scratch copy of /repo/src + docs with patch.diff applied, PV_REPO pointed at it, every ./check CNN --tier quick' if d[:2] in ('S6', 'S7') else 'tools/try_seed.py checks: git -C /repo apply patch.diff; every ./check CNN --tier quick; git -C /repo checkout -- .'),
+            'checks_run': ('tools/try_patch.py: scratch copy of /repo/src + docs with patch.diff applied, PV_REPO pointed at it, every ./check CNN --tier quick' if d[:2] in ('S6', 'S7', 'S8') else 'tools/try_seed.py checks: git -C /repo apply patch.diff; every ./check CNN --tier quick; git -C /repo checkout -- .'),
             'caught_by': caught,
             'analysis_errors': {k: r['errors'][:1] for k, r in sorted(chk.items()) if r['exit'] == 2},
             'silent': [k for k, r in sorted(chk.items()) if r['exit'] == 0],
